@@ -54,6 +54,9 @@ CHECKS = {
  "C16": dict(engine="vsim+adversary", technique="runtime monitoring: invitation workload (valid welcome re-processed under same/fresh wrapper ids in every welcome state, accept/decline, forged welcomes built with OpenMLS by member/inviter/outsider) with before/after fingerprints of every group, stored-welcome comparison, joiner-vs-inviter state comparison and liveness probes of the existing group",
    text="Exploration: on N invitation sequences: re-processing returns the same stored welcome and changes nothing; no group is Active without accept_welcome; after accept the joiner's MLS state, members, group data, relays and mirrored record equal the inviter's post-commit state with self-update Required; no invitation changes an Active group's fingerprint and that group still processes its next message and commit; a stored welcome is never replaced.",
    note="wrapper_event_id of the stored welcome is not compared across wrapper ids; forged welcomes come from a throw-away OpenMLS group (MlsGroup::new_with_group_id) with hand-encoded group-data extension bytes.", ref="5/C16"),
+ "C17": dict(engine="vsim", technique="runtime monitoring: encrypt/announce/commit/decrypt histories with per-receiver delivery orders, membership-based decrypt oracle (hash and byte equality), bit-flip and field tamper trials, key-separation set, group-image round trips through update_group_data",
+   text="Exploration: on N files of every MIME family every member of the encrypting epoch decrypts to the published hash (and original bytes) 0-12 epochs later, whether it processed the announcing message in order or after up to 5 later commits; a member removed earlier and a member of another group fail; every flipped ciphertext or nonce bit and every changed field makes decryption fail; distinct tuples (hash, name, MIME, group, epoch, incl. a field-boundary shift) never share a key; group images round-trip through prepare_group_image_for_upload -> update_group_data -> receiver record -> decrypt_group_image (v2 and a hand-made v1 blob) and reject tampering with and without hash.",
+   note="Image payloads are sanitised before hashing, so image round trips are judged by the published hash / decoded dimensions; cryptographic strength itself is not observable.", ref="5/C17"),
  "C18": dict(engine="vstore", technique="runtime monitoring: ordering/pagination oracle over generated message sets on both backends + last-message-pointer invariant after every step of simulator histories",
    text="Exploration: every listing produced for generated message sets with forced timestamp ties is compared with the documented total order computed independently; pages are concatenated and compared with the full listing; out-of-range limits must be refused.",
    note="Two halves in one command: storage-level ordering/pagination on both backends, and the last-message pointer + ordering after every step of simulator histories.", ref="5/C18"),
